@@ -238,6 +238,26 @@ class EffectDomain(DefaultDomain):
             return ka == kb
         return None
 
+    SET_METHODS = ("update", "difference_update", "add", "discard", "remove", "intersection_update", "copy", "union", "difference")
+
+    def set_method(self, key, name, arg, st):
+        """<the set kept under the state key>.name(arg) -> results."""
+        cur = st.get(key)
+        op = {"update": "union", "union": "union", "difference_update": "minus", "difference": "minus", "add": "with", "discard": "without", "remove": "without", "intersection_update": "meet"}.get(name)
+        if name == "remove":
+            there = self._set_member(arg, cur[1]) if arg is not None else None
+            out = []
+            if there is not True:
+                out.append(exc(("exc", "KeyError"), st))
+            if there is not False:
+                out.append(val(NONE, st.set(key, ("set", (op, cur[1], arg)))))
+            return out
+        if name == "copy":
+            return [val(("set", ("copy", cur)), st)]
+        if name in ("union", "difference"):
+            return [val(("set", (op, cur[1], arg)), st)]
+        return [val(NONE, st.set(key, ("set", (op, cur[1], arg))))]
+
     def _set_elements(self, expr, depth=0):
         """The elements of the set an expression builds, when every step is decided (a list without duplicates), else None."""
         if isinstance(expr, tuple) and expr[:1] == ("set",) and len(expr) == 2:
@@ -914,6 +934,17 @@ class EffectDomain(DefaultDomain):
                     out.append(exc(v, logged(tag or (v[1] if isinstance(v, tuple) and len(v) > 1 else "raised"))))
         return out
 
+    @staticmethod
+    def _spread_kw(keywords, values):
+        """Keyword arguments as (name, value) pairs; **d with an exact dict d spread into its items."""
+        out = []
+        for k, v in zip(keywords, values):
+            if k.arg is None and isinstance(v, tuple) and v[:1] == ("kwdict",) and all(isinstance(n_, str) for n_, _ in v[1]):
+                out.extend(v[1])
+            else:
+                out.append((k.arg or "**", v))
+        return tuple(out)
+
     def _ctor_args(self, expr, fr, pos, kw):
         """Keyword arguments of a constructor call moved to their positions, when the class's own __init__ names them."""
         if not kw or any(k == "**" for k, _ in kw):
@@ -1105,21 +1136,7 @@ class EffectDomain(DefaultDomain):
                     if r.kind == "exc":
                         out.append(r)
                         continue
-                    cur = r.state.get(key)
-                    arg = r.value[0] if r.value else None
-                    op = {"update": "union", "union": "union", "difference_update": "minus", "difference": "minus", "add": "with", "discard": "without", "remove": "without", "intersection_update": "meet"}.get(f_.attr)
-                    if f_.attr == "remove":
-                        there = self._set_member(arg, cur[1]) if arg is not None else None
-                        if there is not True:
-                            out.append(exc(("exc", "KeyError"), r.state))
-                        if there is not False:
-                            out.append(val(NONE, r.state.set(key, ("set", (op, cur[1], arg)))))
-                    elif f_.attr == "copy":
-                        out.append(val(("set", ("copy", cur)), r.state))
-                    elif f_.attr in ("union", "difference"):
-                        out.append(val(("set", (op, cur[1], arg)), r.state))
-                    else:
-                        out.append(val(NONE, r.state.set(key, ("set", (op, cur[1], arg)))))
+                    out.extend(self.set_method(key, f_.attr, r.value[0] if r.value else None, r.state))
                 return out
         if d.split(".")[-1] == "methodcaller" and call.args:
             out = []
@@ -1463,13 +1480,13 @@ class EffectDomain(DefaultDomain):
                 def logged(tag, r=r):
                     s2 = r.state
                     if self.track(d):
-                        entry = (d, tuple(r.value[: len(pos)]), tuple((k.arg or "**", v) for k, v in zip(kws, r.value[len(pos):])), tag)
+                        entry = (d, tuple(r.value[: len(pos)]), self._spread_kw(kws, r.value[len(pos):]), tag)
                         log = s2.get("ev.calls", ())
                         s2 = s2.set("ev.calls", log + (entry,)) if len(log) < self.log_cap else s2.set("ev.calls.overflow", 1)
                     return s2
                 answered = None
                 if self.oracle is not None and d not in self.results and d not in self.raises:
-                    args_ = (d, list(r.value[: len(pos)]), [(k.arg or "**", v) for k, v in zip(kws, r.value[len(pos):])])
+                    args_ = (d, list(r.value[: len(pos)]), list(self._spread_kw(kws, r.value[len(pos):])))
                     answered = self.oracle(*args_, r.state) if getattr(self, "oracle_state", False) else self.oracle(*args_)
                 if answered is not None:
                     for kind_, v in answered:
